@@ -61,7 +61,7 @@ class Gen:
             return ["frozenset", self.type(d - 1, True)]
         c = r.choice(["list", "deque", "seq", "mseq", "vtuple", "opt", "set", "frozenset", "aset", "dict", "odict",
                       "ddict", "mapping", "mmapping", "mproxy", "chainmap", "counter", "tuple", "utuple",
-                      "ntuple", "tdict", "newtype", "dc", "dc", "union", "final"])
+                      "ntuple", "tdict", "newtype", "stype", "dc", "dc", "union", "final"])
         if c in ("list", "deque", "seq", "mseq", "vtuple", "opt"):
             return [c, self.type(d - 1)]
         if c in ("set", "frozenset", "aset"):
@@ -92,6 +92,8 @@ class Gen:
             return ["tdict", self.fresh("TD"), [[f"k{i}", self.type(d - 1), r.random() < 0.6] for i in range(n)]]
         if c == "newtype":
             return ["newtype", self.fresh("NTy"), self.type(d - 1)]
+        if c == "stype":
+            return ["stype", self.fresh("SW"), self.type(d - 1)]
         if c == "final":
             return self.type(d - 1)
         if c == "union":
@@ -227,6 +229,8 @@ class Gen:
             return self.value(r.choice(T[1]))
         if tag == "newtype":
             return self.value(T[2])
+        if tag == "stype":
+            return ["sobj", T[1], self.value(T[2])]
         if tag in ("final", "annotated"):
             return self.value(T[1])
         if tag == "literal":
